@@ -219,7 +219,7 @@ func checkFields2(w *W, v *spec.V2) {
 func runC09(r *Run) int {
 	r.CleanOut()
 	var nt, pairs atomic.Int64
-	corpus3(r, r.Pick(3, 16), func(w *W, v *spec.V3, L int, rng *rand.Rand) {
+	corpus3(r, r.Pick(8, 40), func(w *W, v *spec.V3, L int, rng *rand.Rand) {
 		nt.Add(1)
 		checkFields3(w, v, L, rng, &pairs)
 		if rng.IntN(4000) == 0 {
@@ -227,7 +227,7 @@ func runC09(r *Run) int {
 		}
 	})
 	r.Phase("v3")
-	corpus2(r, r.Pick(1, 6), func(w *W, v *spec.V2, rng *rand.Rand) {
+	corpus2(r, r.Pick(3, 12), func(w *W, v *spec.V2, rng *rand.Rand) {
 		nt.Add(1)
 		checkFields2(w, v)
 	})
@@ -283,7 +283,7 @@ func checkEncode(w *W, k lib.Kind, s, canonical string) {
 func runC10(r *Run) int {
 	r.CleanOut()
 	var nt atomic.Int64
-	corpus3(r, r.Pick(4, 20), func(w *W, v *spec.V3, L int, rng *rand.Rand) {
+	corpus3(r, r.Pick(10, 40), func(w *W, v *spec.V3, L int, rng *rand.Rand) {
 		nt.Add(1)
 		for D := L; D <= spec.LEnv; D++ {
 			var sh *rand.Rand
@@ -298,7 +298,7 @@ func runC10(r *Run) int {
 		}
 	})
 	r.Phase("v3")
-	corpus2(r, r.Pick(1, 6), func(w *W, v *spec.V2, rng *rand.Rand) {
+	corpus2(r, r.Pick(3, 12), func(w *W, v *spec.V2, rng *rand.Rand) {
 		nt.Add(1)
 		s := v.String()
 		for D := v.MinLevel(); D <= spec.LEnv; D++ {
@@ -344,7 +344,7 @@ func runC14(r *Run) int {
 	r.CleanOut()
 	var nt atomic.Int64
 	st := &c14stats{}
-	corpus3(r, r.Pick(6, 30), func(w *W, v *spec.V3, L int, rng *rand.Rand) {
+	corpus3(r, r.Pick(12, 60), func(w *W, v *spec.V3, L int, rng *rand.Rand) {
 		if L == spec.LBase {
 			return
 		}
@@ -412,7 +412,7 @@ func runC14(r *Run) int {
 		}
 	})
 	r.Phase("v3")
-	corpus2(r, r.Pick(2, 8), func(w *W, v *spec.V2, rng *rand.Rand) {
+	corpus2(r, r.Pick(4, 16), func(w *W, v *spec.V2, rng *rand.Rand) {
 		if v.MinLevel() == spec.LBase {
 			// a bare base vector read by the higher decoders is compared too
 		}
